@@ -882,10 +882,17 @@ class t2grid(object):
                     cons = direction_connections(blk)
                     if None not in cons: break
                 else: raise Exception("Can't calculate missing block spacing for 2-D mesh.")
-                d = blk.volume
-                for con in cons:
-                    i = con_name_index(con, blk.name)
-                    d /= (2. * grid.connection[con].distance[i])
+                if dirn < 3:
+                    # horizontal spacing from area of vertical connection (block
+                    # volumes can't be used, as they depend on surface elevation):
+                    hcon, vcon = cons
+                    i = con_name_index(hcon, blk.name)
+                    d = grid.connection[vcon].area / (2. * grid.connection[hcon].distance[i])
+                else:
+                    d = blk.volume
+                    for con in cons:
+                        i = con_name_index(con, blk.name)
+                        d /= (2. * grid.connection[con].distance[i])
                 spacings[dirn].append(d)
             elif num_missing == 2:
                 raise Exception("Mesh appears to be 1-D: can't reconstruct geometry.")
